@@ -248,7 +248,7 @@ def run(ctx):
     json.dump(scenarios, open(sfile, "w"))
     jobs = [("scripts", ["scripts", "-in", sfile])]
     # ------------------------------------------------------------ code -> spec: random scenarios and storms
-    nrand, nstorm, chunk = (2400, 1600, 400) if thorough else (240, 120, 120)
+    nrand, nstorm, chunk = (3200, 3200, 400) if thorough else (240, 120, 120)
     for i in range(0, nrand, chunk):
         jobs.append(("random%d" % (i // chunk), ["random", "-n", str(chunk), "-seedoff", str(i)]))
     for i in range(0, nstorm, chunk):
